@@ -169,9 +169,22 @@ Definition e2e_expected (i : term) : term :=
   else if String.eqb k "e2e-int" then TL (int_reports p (steps_of (gn i 6)) g0)
   else TL (map (fun rq => enc_top (top_view p (cli_config (steps_of rq) g0))) (gl (gn i 6))).
 
-Definition run_all (i : term) : term := if is_e2e i then e2e_expected i else run_C14 i.
+(* kind "e2e-java": fmt "java"; doc = TL [TZ contention; TS period; TL recs (TL [TS a; TS b; TL addrs]); TL locs (TL [TS addr; TS name]);
+   TL droppable names]; observable TL [TL [TZ value; TL names] ...] from pprof -traces on the printed Java document *)
+Definition jdoc_of (t : term) : jdoc :=
+  {| jd_contention := gb (gn t 0); jd_period := gs (gn t 1);
+     jd_recs := map (fun r => {| jr_a := gs (gn r 0); jr_b := gs (gn r 1); jr_addrs := gss (gn r 2) |}) (gl (gn t 2));
+     jd_locs := map (fun e => (gs (gn e 0), gs (gn e 1))) (gl (gn t 3)) |}.
+Definition java_expected (i : term) : term :=
+  let d := i_doc i in
+  let drop := gss (gn d 4) in
+  TL (map (fun r => TL [TZ (fst r); of_ss (snd r)])
+          (java_traces (fun n => existsb (String.eqb n) drop) (jdoc_of d))).
+
+Definition e2e_any (i : term) : term := if String.eqb (i_kind i) "e2e-java" then java_expected i else e2e_expected i.
+Definition run_all (i : term) : term := if is_e2e i then e2e_any i else run_C14 i.
 Definition eqv_all (i m o : term) : bool := if is_e2e i then term_eqb m o else eqv_C14 i m o.
-Definition spec_all (i o : term) : bool := if is_e2e i then term_eqb (e2e_expected i) o else spec_C14 i o.
+Definition spec_all (i o : term) : bool := if is_e2e i then term_eqb (e2e_any i) o else spec_C14 i o.
 Definition cls_all (i : term) : list Z := if is_e2e i then [] else cls_C14 i.
 
 Definition judge_C14 := judge_all run_all eqv_all spec_all cls_all 0%Z.
